@@ -24,7 +24,11 @@ pub mod ext_mpsc {
     /// try_recv on this receiver has answered Empty / Disconnected
     pub uninterp spec fn w_empty<T>(r: &mpsc::Receiver<T>) -> bool;
     pub uninterp spec fn w_disconnected<T>(r: &mpsc::Receiver<T>) -> bool;
+    /// may-call side (verification device, DESIGN 2.12): try_recv REQUIRES it; lets a caller state what must have happened
+    /// before the queue may be drained (the executor: its `notified` flag has been cleared)
+    pub uninterp spec fn may_recv<T>(r: &mpsc::Receiver<T>) -> bool;
     pub assume_specification<T> [mpsc::Receiver::<T>::try_recv] (r: &mpsc::Receiver<T>) -> (res: Result<T, mpsc::TryRecvError>)
+        requires may_recv(r),
         ensures match res {
             Ok(v) => w_received(r, v),
             Err(mpsc::TryRecvError::Empty) => w_empty(r),
